@@ -132,30 +132,33 @@ def _inlined(cmd, params):
 
 
 def _run_nop(pats):
-    """every command under patch(nop_regexes=pats), each from the same initial state: (result, full state before, full state after)"""
+    """every command under patch(nop_regexes=pats), each from the same initial state: (result, state before, state after).
+    The state before is the state `_reset` builds (dumped once per instance); a command that matches a pattern gets the FULL dump
+    (rows, tables with comments, columns), the others the light one (rows, tables with comments)."""
     import fakesnow
     import snowflake.connector as sc
     out = []
     with fakesnow.patch(nop_regexes=pats):
         conn = sc.connect(database="d", schema="s")
+        _reset(conn)
+        before = {True: _state(conn, True), False: _state(conn, False)}
         for cmd, params in NOP_CMDS:
             _reset(conn)
-            before = _state(conn)
+            full = bool(pats) and any(re.match(p, _inlined(cmd, params), re.IGNORECASE) for p in pats)
             cur = conn.cursor()
             try:
                 cur.execute(cmd, params)
                 r = ("rows", [[canon(c) for c in row] for row in cur.fetchall()], [d.name for d in cur.description], cur.rowcount)
             except Exception as e:  # noqa: BLE001
                 r = _err(e)
-            out.append((r, before, _state(conn)))
+            out.append((r, before[full], _state(conn, full)))
         for text in NOP_TEXTS:
             _reset(conn)
-            before = _state(conn)
             try:
                 r = [("rows", [[canon(c) for c in row] for row in c.fetchall()], None, c.rowcount) for c in conn.execute_string(text)]
             except Exception as e:  # noqa: BLE001
                 r = _err(e)
-            out.append((r, before, _state(conn)))
+            out.append((r, before[False], _state(conn, False)))
     return out
 
 
@@ -179,11 +182,13 @@ def _q(conn, sql):
         return [["unreadable", type(e).__name__]]
 
 
-def _state(conn):
-    """full dump of what a statement could have touched: rows, tables, comments, columns"""
-    return {"t": _q(conn, "select id, v from t order by id"), "t2": _q(conn, "select id from t2 order by id"),
-            "tables": _q(conn, "select table_name, table_type, comment from information_schema.tables where table_schema = 'S' order by table_name"),
-            "columns": _q(conn, "select table_name, column_name, data_type, comment from information_schema.columns where table_schema = 'S' order by table_name, ordinal_position")}
+def _state(conn, full=True):
+    """dump of what a statement could have touched: rows, tables with their comments — and, for the full dump, the columns"""
+    d = {"rows": _q(conn, "select 't' as tbl, id, v from t union all select 't2', id, null from t2 order by 1, 2"),
+         "tables": _q(conn, "select table_name, table_type, comment from information_schema.tables where table_schema = 'S' order by table_name")}
+    if full:
+        d["columns"] = _q(conn, "select table_name, column_name, data_type, comment from information_schema.columns where table_schema = 'S' order by table_name, ordinal_position")
+    return d
 
 
 def _worker(shard):
@@ -380,6 +385,28 @@ def gen_cases(chk):
     return cases
 
 
+ZW = ["\ufeff", "\u200b", "\xad", "\u2028", "\x85", "\u200d", "\u2060", "\u00a0", "\ufffe"]   # BOM / zero-width / unusual separators: data inside a literal
+
+
+def lit_value(rnd) -> str:
+    """literal content: adversarial string, often with a zero-width or otherwise unusual code point somewhere in it"""
+    s_ = clean_str(rnd)
+    if rnd.random() < 0.35:
+        for _ in range(rnd.randint(1, 2)):
+            k = rnd.randint(0, len(s_))
+            s_ = s_[:k] + rnd.choice(ZW) + s_[k:]
+    return s_
+
+
+def both_sides(stmt: str, rnd) -> str:
+    """comments before AND after one statement (block and line comments), still one statement"""
+    if stmt == "select 'unterminated" or rnd.random() > 0.3:
+        return stmt
+    lead = rnd.choice(["/* a */ ", "/* a */ /* b */ ", "-- a ;\n", "/* a; */\n", "// a\n"])
+    trail = rnd.choice([" /* z */", " /* y */ /* z */", " -- z\n", "\n/* z; */ ", " /* y */ -- z\n"])
+    return lead + stmt + trail
+
+
 def _gen(rnd, tid, force):
     """statement list with the python-level bookkeeping of its effects"""
     table: dict[int, str] = {}
@@ -416,13 +443,13 @@ def _gen(rnd, tid, force):
             continue
         ids = list(table)
         if k < 0.45 or not ids:
-            i, s = tid * 100 + j, clean_str(rnd)
+            i, s = tid * 100 + j, lit_value(rnd)
             stmts.append(f"{rnd.choice(['insert into', 'INSERT INTO', 'Insert  Into'])} t {rnd.choice(['', '(id, v) '])}values ({i}, {lit(s, rnd)})")
             table[i] = s
             effects.append(("rows", [[("int", 1)]]))
             tbl_ops.append(("put", i, s))
         elif k < 0.6:
-            i, s = rnd.choice(ids), clean_str(rnd)
+            i, s = rnd.choice(ids), lit_value(rnd)
             stmts.append(f"update t set v = {lit(s, rnd)} where id = {i}")
             table[i] = s
             effects.append(("rows", [[("int", 1), ("int", 0)]]))
@@ -439,8 +466,9 @@ def _gen(rnd, tid, force):
             effects.append(("rows", [[("str", table[i])]]))
             tbl_ops.append(None)
         elif k < 0.93:
-            a, b = clean_str(rnd), clean_str(rnd)
-            stmts.append(f"select {lit(a, rnd)}, {lit(b, rnd)} as \"a;b\"")
+            a, b = lit_value(rnd), lit_value(rnd)
+            alias = rnd.choice(['"a;b"', '"a;b"', '"k\ufeffk"', '"z\u200bw -- x"'])
+            stmts.append(f"select {lit(a, rnd)}, {lit(b, rnd)} as {alias}")
             effects.append(("rows", [[("str", a), ("str", b)]]))
             tbl_ops.append(None)
         else:
@@ -450,7 +478,15 @@ def _gen(rnd, tid, force):
             effects.append(ef)
             tbl_ops.append(None)
         flags.append("o")
-    parts = [rnd.choice(LEADS)]
+    stmts = [both_sides(x, rnd) for x in stmts]
+    bom = force is None and not tx and rnd.random() < 0.04
+    if bom:
+        # a byte order mark at the very start of the text is not white space for the tokenizer: the first statement does not parse —
+        # through execute_string and one by one alike (nothing is executed either way)
+        stmts[0] = "\ufeff" + stmts[0]
+        flags[0], effects[0], tbl_ops[0] = "p", None, None
+        table.clear()
+    parts = [rnd.choice(LEADS) if not bom else ""]
     for j, s in enumerate(stmts):
         parts.append(s)
         if j < len(stmts) - 1:
